@@ -26,6 +26,7 @@ class Rec:
         self.pipes = []          # real pipelines in arrival order
         self.pkey = {}           # pipeline_id -> index in arrival order
         self.arrival = {}        # pipeline_id -> (tick, order)
+        self.arr_tick = {}       # id(pipeline) -> arrival tick (ids may legitimately recur once a pipeline has finished)
         self.rounds = []
         self.tick_results = []   # per executor tick: list of results
         self.executor = None
@@ -57,6 +58,7 @@ class Rec:
             self.pkey[p.pipeline_id] = len(self.pipes)
             self.pipes.append(p)
             self.arrival[p.pipeline_id] = (self.tick, len(self.pipes))
+            self.arr_tick[id(p)] = self.tick
             for oi, op in enumerate(p.values):
                 self.op_index[id(op)] = (len(self.pipes) - 1, oi)
                 self.log.register(op, (len(self.pipes) - 1, oi))
@@ -79,6 +81,7 @@ def make_scn_workload(scn, rec):
     class ScnWorkload(Workload):
         def __init__(self):
             self.t = 0
+            self.rr = _random.Random(scn.get("reuse_seed", 0))
             self.by_tick = {}
             for k, pd in enumerate(scn["pipes"]):
                 self.by_tick.setdefault(pd.get("at", 0), []).append((k, pd))
@@ -86,11 +89,23 @@ def make_scn_workload(scn, rec):
         def run_one_tick(self):
             out = []
             for k, pd in self.by_tick.get(self.t, []):
-                p = Pipeline(pd.get("id", "p%d" % k), Priority[pd["prio"]])
+                pid = pd.get("id", "p%d" % k)
+                if scn.get("reuse_ids") and self.rr.random() < 0.4:
+                    # a recurring job: the id of a pipeline of the same priority that has already finished
+                    done = [q.pipeline_id for q in rec.pipes if q.priority.name == pd["prio"]
+                            and q.runtime_status().finish_tick is not None
+                            and not any(x.pipeline_id == q.pipeline_id and x.runtime_status().finish_tick is None for x in rec.pipes)]
+                    done = [x for x in done if x not in [q.pipeline_id for q in out]]     # not twice within one tick
+                    if done:
+                        pid = self.rr.choice(done)
+                        rec.probe("pipeline_id_reused")
+                p = Pipeline(pid, Priority[pd["prio"]])
                 rops = []
                 scratch = []
                 for od in pd["ops"]:
-                    if pd.get("scratch_parents") and od.get("par"):
+                    if pd.get("scratch_parents") and od.get("par") and len(rops) % 2:
+                        op = p.new_operator(rops[j] for j in od["par"])
+                    elif pd.get("scratch_parents") and od.get("par"):
                         scratch[:] = [rops[j] for j in od["par"]]
                         op = p.new_operator(scratch)
                         scratch[:] = []
